@@ -60,8 +60,10 @@ void buf_printf(Buf *b, const char *fmt, ...) {
     int n = vsnprintf(tmp, sizeof tmp, fmt, ap);
     va_end(ap);
     if (n < 0) return;
-    if ((size_t)n >= sizeof tmp) n = sizeof tmp - 1;
-    buf_put(b, tmp, (size_t)n);
+    if ((size_t)n < sizeof tmp) { buf_put(b, tmp, (size_t)n); return; }
+    char *big = malloc((size_t)n + 1);
+    va_start(ap, fmt); vsnprintf(big, (size_t)n + 1, fmt, ap); va_end(ap);
+    buf_put(b, big, (size_t)n); free(big);
 }
 
 /* ======================================================================
@@ -620,7 +622,7 @@ static ssize_t reg_write(SimFile *f, const void *buf, size_t n, bool *crash) {
     FsNode *nd = f->node;
     if (!nd) { errno = EBADF; return -1; }
     if ((f->oflags & O_ACCMODE) == O_RDONLY) { errno = EBADF; return -1; }
-    if (nd->write_limit && nd->written + n >= nd->write_limit) {
+    if (nd->limit_on && nd->written + n >= nd->write_limit) {
         n = (size_t)(nd->write_limit - nd->written);  /* torn write: only a prefix reaches the disk */
         *crash = true;
     }
